@@ -44,15 +44,15 @@ theorem adaptive_quintic_exact (c0 c1 c2 c3 c4 c5 : Rat) (n : Nat) :
     exact boole a b S fa fb fc hfa hfb hfc hS
   | succ n ih =>
     intro a b eps S fa fb fc hfa hfb hfc hS
-    by_cases h : Lp.rabs (s2 (quintic c0 c1 c2 c3 c4 c5) a b fa fb fc - S) ≤ 15 * eps
+    by_cases h : Lp.rabs (s2 (quintic c0 c1 c2 c3 c4 c5) a b fa fb fc - S) ≤ K.accFactor * eps
     · rw [adaptive_succ_accept _ _ _ _ _ _ _ _ _ h]
       exact boole a b S fa fb fc hfa hfb hfc hS
     · rw [adaptive_succ_reject _ _ _ _ _ _ _ _ _ h]
       simp only []
-      have hL := ih a (mid a b) (eps / 2) (sLeft (quintic c0 c1 c2 c3 c4 c5) a b fa fc) fa fc
+      have hL := ih a (mid a b) (eps / K.epsDivL) (sLeft (quintic c0 c1 c2 c3 c4 c5) a b fa fc) fa fc
         (quintic c0 c1 c2 c3 c4 c5 (dL a b)) hfa (by rw [hfc]; rfl) rfl
         (by subst hfa hfc; simp only [sLeft, mid, dL]; ring)
-      have hR := ih (mid a b) b (eps / 2) (sRight (quintic c0 c1 c2 c3 c4 c5) a b fb fc) fc fb
+      have hR := ih (mid a b) b (eps / K.epsDivR) (sRight (quintic c0 c1 c2 c3 c4 c5) a b fb fc) fc fb
         (quintic c0 c1 c2 c3 c4 c5 (eR a b)) (by rw [hfc]; rfl) hfb
         (by simp only [eR, mid]; congr 1; ring)
         (by subst hfb hfc; simp only [sRight, mid, eR]; ring)
@@ -135,7 +135,7 @@ theorem adaptive_evals_inside (f : Rat → Rat) (n : Nat) :
     exact leafcase a b hab x hx
   | succ n ih =>
     intro a b eps S fa fb fc hab x hx
-    by_cases h : Lp.rabs (s2 f a b fa fb fc - S) ≤ 15 * eps
+    by_cases h : Lp.rabs (s2 f a b fa fb fc - S) ≤ K.accFactor * eps
     · rw [adaptive_succ_accept _ _ _ _ _ _ _ _ _ h] at hx
       exact leafcase a b hab x hx
     · rw [adaptive_succ_reject _ _ _ _ _ _ _ _ _ h] at hx
@@ -160,7 +160,7 @@ theorem simpson_evals_inside (f : Rat → Rat) (a b eps : Rat) (depth : Int) :
     simp only [List.mem_cons] at hx
     have key : ∀ lo hi : Rat, lo ≤ hi → min a b = lo → max a b = hi →
         (x = lo ∨ x = hi ∨ x = (lo + hi) / 2 ∨
-          x ∈ (adaptive f lo hi (Lp.rabs eps) ((hi - lo) / 6 * (f lo + 4 * f ((lo + hi) / 2) + f hi))
+          x ∈ (adaptive f lo hi (Lp.rabs eps) ((hi - lo) / K.coarseDiv * (f lo + K.coarseMidW * f ((lo + hi) / 2) + f hi))
                 (f lo) (f hi) (f ((lo + hi) / 2)) depth.toNat).evals) →
         min a b ≤ x ∧ x ≤ max a b := by
       intro lo hi hle hmin hmax hx
@@ -186,12 +186,12 @@ theorem adaptive_eval_count (f : Rat → Rat) (n : Nat) :
     have h4 : 4 ≤ 2 ^ (n + 2) := by
       have : 2 ^ (n + 2) = 4 * 2 ^ n := by rw [pow_add]; ring
       have := Nat.one_le_two_pow (n := n); omega
-    by_cases h : Lp.rabs (s2 f a b fa fb fc - S) ≤ 15 * eps
+    by_cases h : Lp.rabs (s2 f a b fa fb fc - S) ≤ K.accFactor * eps
     · rw [adaptive_succ_accept _ _ _ _ _ _ _ _ _ h]; simp only [List.length_cons, List.length_nil]; omega
     · rw [adaptive_succ_reject _ _ _ _ _ _ _ _ _ h]
       simp only [List.length_cons, List.length_append]
-      have h1 := ih a (mid a b) (eps / 2) (sLeft f a b fa fc) fa fc (f (dL a b))
-      have h2 := ih (mid a b) b (eps / 2) (sRight f a b fb fc) fc fb (f (eR a b))
+      have h1 := ih a (mid a b) (eps / K.epsDivL) (sLeft f a b fa fc) fa fc (f (dL a b))
+      have h2 := ih (mid a b) b (eps / K.epsDivR) (sRight f a b fb fc) fc fb (f (eR a b))
       omega
 
 /-- **simpson_eval_count**: at most `2^(depth+2)+1` evaluations (`depth` negative counts as 0). -/
@@ -203,8 +203,8 @@ theorem simpson_eval_count (f : Rat → Rat) (a b eps : Rat) (depth : Int) :
   · rw [if_neg hab]
     simp only [List.length_cons]
     have := adaptive_eval_count f depth.toNat (if a > b then b else a) (if a > b then a else b) (Lp.rabs eps)
-      (((if a > b then a else b) - (if a > b then b else a)) / 6 *
-        (f (if a > b then b else a) + 4 * f (((if a > b then b else a) + (if a > b then a else b)) / 2) + f (if a > b then a else b)))
+      (((if a > b then a else b) - (if a > b then b else a)) / K.coarseDiv *
+        (f (if a > b then b else a) + K.coarseMidW * f (((if a > b then b else a) + (if a > b then a else b)) / 2) + f (if a > b then a else b)))
       (f (if a > b then b else a)) (f (if a > b then a else b)) (f (((if a > b then b else a) + (if a > b then a else b)) / 2))
     omega
 
@@ -227,7 +227,7 @@ theorem adaptive_reuse (f : Rat → Rat) (n : Nat) :
     subst hp; exact own _ _ _ _ _ _ _ _ _ hfa hfb hfc hS
   | succ n ih =>
     intro a b eps S fa fb fc hfa hfb hfc hS p hp
-    by_cases h : Lp.rabs (s2 f a b fa fb fc - S) ≤ 15 * eps
+    by_cases h : Lp.rabs (s2 f a b fa fb fc - S) ≤ K.accFactor * eps
     · rw [adaptive_succ_accept _ _ _ _ _ _ _ _ _ h] at hp
       simp only [List.mem_cons, List.not_mem_nil, or_false] at hp
       subst hp; exact own _ _ _ _ _ _ _ _ _ hfa hfb hfc hS
@@ -235,9 +235,9 @@ theorem adaptive_reuse (f : Rat → Rat) (n : Nat) :
       simp only [List.mem_cons, List.mem_append] at hp
       rcases hp with rfl | hp | hp
       · exact own _ _ _ _ _ _ _ _ _ hfa hfb hfc hS
-      · exact ih a (mid a b) (eps / 2) _ fa fc _ hfa (by rw [hfc]; rfl) rfl
+      · exact ih a (mid a b) (eps / K.epsDivL) _ fa fc _ hfa (by rw [hfc]; rfl) rfl
           (by subst hfa hfc; simp only [sLeft, mid, dL]; ring) p hp
-      · exact ih (mid a b) b (eps / 2) _ fc fb _ (by rw [hfc]; rfl) hfb
+      · exact ih (mid a b) b (eps / K.epsDivR) _ fc fb _ (by rw [hfc]; rfl) hfb
           (by simp only [eR, mid]; congr 1; ring)
           (by subst hfb hfc; simp only [sRight, mid, eR]; ring) p hp
 
@@ -268,14 +268,14 @@ theorem adaptive_leafEps (f : Rat → Rat) (n : Nat) :
   | zero => intro a b eps S fa fb fc; rw [adaptive_zero]; simp [leafEps, mkPanel]
   | succ n ih =>
     intro a b eps S fa fb fc
-    by_cases h : Lp.rabs (s2 f a b fa fb fc - S) ≤ 15 * eps
+    by_cases h : Lp.rabs (s2 f a b fa fb fc - S) ≤ K.accFactor * eps
     · rw [adaptive_succ_accept _ _ _ _ _ _ _ _ _ h]; simp [leafEps, mkPanel]
     · rw [adaptive_succ_reject _ _ _ _ _ _ _ _ _ h]
       simp only []
-      have : leafEps (mkPanel f a b eps S fa fb fc (n + 1) false :: ((adaptive f a (mid a b) (eps / 2) (sLeft f a b fa fc) fa fc (f (dL a b)) n).panels ++
-          (adaptive f (mid a b) b (eps / 2) (sRight f a b fb fc) fc fb (f (eR a b)) n).panels))
-          = leafEps ((adaptive f a (mid a b) (eps / 2) (sLeft f a b fa fc) fa fc (f (dL a b)) n).panels ++
-          (adaptive f (mid a b) b (eps / 2) (sRight f a b fb fc) fc fb (f (eR a b)) n).panels) := by
+      have : leafEps (mkPanel f a b eps S fa fb fc (n + 1) false :: ((adaptive f a (mid a b) (eps / K.epsDivL) (sLeft f a b fa fc) fa fc (f (dL a b)) n).panels ++
+          (adaptive f (mid a b) b (eps / K.epsDivR) (sRight f a b fb fc) fc fb (f (eR a b)) n).panels))
+          = leafEps ((adaptive f a (mid a b) (eps / K.epsDivL) (sLeft f a b fa fc) fa fc (f (dL a b)) n).panels ++
+          (adaptive f (mid a b) b (eps / K.epsDivR) (sRight f a b fb fc) fc fb (f (eR a b)) n).panels) := by
         unfold leafEps; simp [List.filter_cons, mkPanel]
       rw [this, leafEps_append, ih, ih]; ring
 
@@ -287,7 +287,7 @@ theorem adaptive_budget (f : Rat → Rat) (I : Rat → Rat → Rat)
           |I p.a p.b - p.boole| ≤ κ * |p.S2 - p.S| / 15) →
       |(adaptive f a b eps S fa fb fc n).val - I a b| ≤ κ * eps := by
   have leafcase : ∀ (a b eps S fa fb fc : Rat) (k : Nat),
-      Lp.rabs (s2 f a b fa fb fc - S) ≤ 15 * eps →
+      Lp.rabs (s2 f a b fa fb fc - S) ≤ K.accFactor * eps →
       |I a b - (mkPanel f a b eps S fa fb fc k true).boole| ≤ κ * |(mkPanel f a b eps S fa fb fc k true).S2 - (mkPanel f a b eps S fa fb fc k true).S| / 15 →
       |s2 f a b fa fb fc + (s2 f a b fa fb fc - S) / 15 - I a b| ≤ κ * eps := by
     intro a b eps S fa fb fc k hacc hl
@@ -308,19 +308,19 @@ theorem adaptive_budget (f : Rat → Rat) (I : Rat → Rat → Rat)
     exact leafcase a b eps S fa fb fc 0 hw hl'
   | succ n ih =>
     intro a b eps S fa fb fc hw hl
-    by_cases h : Lp.rabs (s2 f a b fa fb fc - S) ≤ 15 * eps
+    by_cases h : Lp.rabs (s2 f a b fa fb fc - S) ≤ K.accFactor * eps
     · have e := adaptive_succ_accept f a b eps S fa fb fc n h
       have hl' := hl (mkPanel f a b eps S fa fb fc (n + 1) true) (by rw [e]; exact List.mem_singleton.mpr rfl) rfl
       rw [e]
       exact leafcase a b eps S fa fb fc (n + 1) h hl'
     · have e := adaptive_succ_reject f a b eps S fa fb fc n h
       simp only [] at e
-      have hwL : (adaptive f a (mid a b) (eps / 2) (sLeft f a b fa fc) fa fc (f (dL a b)) n).warn = false ∧
-          (adaptive f (mid a b) b (eps / 2) (sRight f a b fb fc) fc fb (f (eR a b)) n).warn = false := by
+      have hwL : (adaptive f a (mid a b) (eps / K.epsDivL) (sLeft f a b fa fc) fa fc (f (dL a b)) n).warn = false ∧
+          (adaptive f (mid a b) b (eps / K.epsDivR) (sRight f a b fb fc) fc fb (f (eR a b)) n).warn = false := by
         rw [e] at hw; simpa [Bool.or_eq_false_iff] using hw
-      have hL := ih a (mid a b) (eps / 2) (sLeft f a b fa fc) fa fc (f (dL a b)) hwL.1
+      have hL := ih a (mid a b) (eps / K.epsDivL) (sLeft f a b fa fc) fa fc (f (dL a b)) hwL.1
         (fun p hp hlf => hl p (by rw [e]; exact List.mem_cons_of_mem _ (List.mem_append_left _ hp)) hlf)
-      have hR := ih (mid a b) b (eps / 2) (sRight f a b fb fc) fc fb (f (eR a b)) hwL.2
+      have hR := ih (mid a b) b (eps / K.epsDivR) (sRight f a b fb fc) fc fb (f (eR a b)) hwL.2
         (fun p hp hlf => hl p (by rw [e]; exact List.mem_cons_of_mem _ (List.mem_append_right _ hp)) hlf)
       rw [e]
       simp only []
